@@ -261,6 +261,10 @@ def replay_case(case, sv, wit):
         decisions[eval(k, {"__builtins__": {}}, {})] = v
     toks = tokens(sv, **case.tok_kw)
     form = case.builder(*toks)
+    if wit.get("wrap") == "setv":
+        form = E(S("setv"), S("hv_x"), form)
+    elif wit.get("wrap") == "setx":
+        form = E(S("setx"), S("hv_x"), form)
     ctxkw = dict(case.ctxkw)
     if any(k[0] == "completes" and v and (ctxkw.get("atom_abrupt", ("raise",))[v - 1] != "raise") for k, v in decisions.items()
            if isinstance(k, tuple) and k and k[0] == "completes" and k[1] == "S"):
